@@ -1,9 +1,13 @@
 (* (6) C07: join = apply_matcher o filter_tables, as a corollary of the specs.
-   obsP is ANY list that is sound and complete w.r.t. the RAW score (pipeline_sound_raw,
-   pipeline_complete_raw below: what apply_matcher o filter_tables yields when the filter keeps
-   every qualifying pair) and satisfies missing_spec; obsJ satisfies the join specs.
+   obsP is ANY list that is sound and complete w.r.t. the score the MATCHER computes
+   (matcher_raw_score: py_stringmatching's get_raw_score on the tokenizer's lists, whose
+   exact-match shortcut is order-sensitive; pipeline_sound_raw, pipeline_complete_raw below: what
+   apply_matcher o filter_tables yields when the filter keeps every qualifying pair) and
+   satisfies missing_spec; obsJ satisfies the join specs.
+   Set aside (pipeline_spec): both-empty pairs, pairs gray for the join's raw score (pair_gray)
+   and pairs gray for the matcher's raw score (pair_gray_pipe).
    The remaining arithmetic content is isolated in the hypothesis round_agrees:
-   round(reported, 4) == round(raw, 4), i.e. idempotence of the 4-decimal rounding on scores.
+   round(reported, 4) == round(matcher raw, 4).
    Axiom-free.                                                                              *)
 From Coq Require Import ZArith Bool List String Lia SpecFloat PeanoNat.
 From SSJ Require Import F64 PyNum FilterUtilsGen HelperGen TokenOrdering Measures Filters Joins Api JoinSpec MetaSpec
@@ -17,17 +21,17 @@ Definition raw_in (c : jcase) (l r : row) : bool :=
   if present l && present r then
     if both_empty l r then true
     else match j_entry c with
-         | EJoin m => cmp_op (j_op c) (raw_score m (toks_of l) (toks_of r)) (j_t c)
+         | EJoin m => cmp_op (j_op c) (matcher_raw_score m (toks_of l) (toks_of r)) (j_t c)
          | _ => false
          end
   else j_allow_missing c.
 Definition raw_sc (c : jcase) (l r : row) : pyval :=
   if present l && present r then
-    match j_entry c with EJoin m => raw_score m (toks_of l) (toks_of r) | _ => PNone end
+    match j_entry c with EJoin m => matcher_raw_score m (toks_of l) (toks_of r) | _ => PNone end
   else PNone.
 
-(* each row: known keys, once; a present pair (not both empty) satisfies the comparison on the raw
-   score and carries the raw score; a pair with a missing side only under allow_missing *)
+(* each row: known keys, once; a present pair (not both empty) satisfies the comparison on the
+   matcher's raw score and carries that score; a pair with a missing side only under allow_missing *)
 Definition pipe_row (c : jcase) (obs : list out_row) (o : out_row) : bool :=
   match find_row (fst (fst o)) (j_L c), find_row (snd (fst o)) (j_R c) with
   | Some l, Some r =>
@@ -35,30 +39,88 @@ Definition pipe_row (c : jcase) (obs : list out_row) (o : out_row) : bool :=
       (if present l && present r then
          if both_empty l r then true
          else match j_entry c with
-              | EJoin m => cmp_op (j_op c) (raw_score m (toks_of l) (toks_of r)) (j_t c) &&
-                           score_same (snd o) (raw_score m (toks_of l) (toks_of r))
+              | EJoin m => cmp_op (j_op c) (matcher_raw_score m (toks_of l) (toks_of r)) (j_t c) &&
+                           score_same (snd o) (matcher_raw_score m (toks_of l) (toks_of r))
               | _ => false
               end
        else j_allow_missing c && score_same (snd o) PNone)
   | _, _ => false
   end.
 Definition pipeline_sound_raw (c : jcase) (obs : list out_row) : bool := forallb (pipe_row c obs) obs.
-(* a filter is only guaranteed to keep the QUALIFYING pairs (raw and rounded comparison) *)
+(* a filter is only guaranteed to keep the QUALIFYING pairs (raw and rounded comparison of the
+   join); the matcher then keeps those whose matcher score satisfies the comparison *)
 Definition pipeline_complete_raw (c : jcase) (obs : list out_row) : bool :=
   forall_pairs c (fun l r =>
     if present l && present r then
       if both_empty l r then true
       else match j_entry c with
-           | EJoin m => if qualifies m (j_op c) (j_t c) (toks_of l) (toks_of r)
+           | EJoin m => if qualifies m (j_op c) (j_t c) (toks_of l) (toks_of r) &&
+                           cmp_op (j_op c) (matcher_raw_score m (toks_of l) (toks_of r)) (j_t c)
                         then has_pair (fst l) (fst r) obs else true
            | _ => true
            end
     else true).
 
-(* round(reported) == round(raw) on the reported pairs *)
+(* round(reported) == round(matcher raw) on the reported pairs *)
 Definition round_agrees (c : jcase) (m : string) : Prop :=
   forall x y, cmp_op (j_op c) (reported_score m x y) (j_t c) = true ->
-              score_same (round_score (reported_score m x y)) (round_score (raw_score m x y)) = true.
+              score_same (round_score (reported_score m x y)) (round_score (matcher_raw_score m x y)) = true.
+(* ... only on the rows of the two tables *)
+Definition round_agrees_rows (c : jcase) (m : string) : Prop :=
+  forall l r, In l (j_L c) -> In r (j_R c) -> present l = true -> present r = true ->
+    cmp_op (j_op c) (reported_score m (toks_of l) (toks_of r)) (j_t c) = true ->
+    score_same (round_score (reported_score m (toks_of l) (toks_of r)))
+               (round_score (matcher_raw_score m (toks_of l) (toks_of r))) = true.
+
+Lemma round_agrees_to_rows c m : round_agrees c m -> round_agrees_rows c m.
+Proof. intros H l r _ _ _ _. apply H. Qed.
+
+(* ------------------------------------------------------------------ the matcher's raw score *)
+Lemma matcher_raw_not_jcd m x y : is_jcd m = false -> matcher_raw_score m x y = raw_score m x y.
+Proof. unfold matcher_raw_score. intros ->. reflexivity. Qed.
+
+Lemma list_eqbZ_true a : forall b, list_eqbZ a b = true -> a = b.
+Proof.
+  induction a as [|x a IH]; intros [|y b] H; simpl in H; try reflexivity; try discriminate.
+  apply andb_true_iff in H. destruct H as [H1 H2]. apply Z.eqb_eq in H1. rewrite H1, (IH b H2). reflexivity.
+Qed.
+
+Lemma filter_id {A} (f : A -> bool) (l : list A) : (forall x, In x l -> f x = true) -> filter f l = l.
+Proof.
+  induction l as [|x l IH]; intros H; [reflexivity|]. simpl. rewrite (H x (or_introl eq_refl)).
+  rewrite IH; [reflexivity|]. intros y Hy. apply H. right; exact Hy.
+Qed.
+
+Lemma overlap_sets_self x : overlap_sets x x = len (dedup x).
+Proof.
+  unfold overlap_sets. rewrite filter_id; [reflexivity|]. intros w Hw. unfold memZ.
+  apply existsb_exists. exists w. split; [exact Hw | apply Z.eqb_refl].
+Qed.
+
+(* on EQUAL LISTS the matcher's score is the join's raw score (both 1.0 for J/C/D) *)
+Lemma matcher_raw_same_list m x y : list_eqbZ x y = true -> matcher_raw_score m x y = raw_score m x y.
+Proof.
+  intros E. unfold matcher_raw_score. destruct (is_jcd m) eqn:Ej; [|reflexivity]. rewrite E.
+  apply list_eqbZ_true in E. subst y. unfold raw_score. rewrite Ej. cbv zeta.
+  unfold sim_sizes. rewrite overlap_sets_self, Z.eqb_refl. reflexivity.
+Qed.
+
+(* the only case in which the two differ: equal SETS (o = a = b) listed differently *)
+Lemma matcher_raw_cases m x y :
+  matcher_raw_score m x y = raw_score m x y \/
+  (is_jcd m = true /\ list_eqbZ x y = false /\
+   overlap_sets x y = len (dedup x) /\ overlap_sets x y = len (dedup y) /\
+   raw_score m x y = PFloat f_one /\
+   matcher_raw_score m x y = PFloat (sim_formula m (len (dedup x)) (len (dedup x)) (len (dedup x)))).
+Proof.
+  destruct (is_jcd m) eqn:Ej; [|left; apply matcher_raw_not_jcd; exact Ej].
+  destruct (list_eqbZ x y) eqn:El; [left; apply matcher_raw_same_list; exact El|].
+  unfold matcher_raw_score, raw_score, sim_sizes. rewrite Ej, El. cbv zeta.
+  destruct ((overlap_sets x y =? len (dedup x)) && (overlap_sets x y =? len (dedup y))) eqn:Eo;
+    [right | left; reflexivity].
+  apply andb_true_iff in Eo. destruct Eo as [E1 E2]. apply Z.eqb_eq in E1, E2.
+  repeat split; try assumption; try reflexivity. rewrite <- E2, E1. reflexivity.
+Qed.
 
 (* ------------------------------------------------------------------ shape of the raw score *)
 Lemma raw_score_shape m x y : set_measure m = true ->
@@ -81,6 +143,45 @@ Proof.
   - destruct S as [[f E]|[e E]]; rewrite E in *; destruct s; simpl in *; try discriminate; reflexivity.
 Qed.
 
+Lemma matcher_raw_shape m x y : set_measure m = true ->
+  if String.eqb m "OVERLAP" then matcher_raw_score m x y = PInt (overlap_sets x y)
+  else (exists f, matcher_raw_score m x y = PFloat f) \/ (exists e, matcher_raw_score m x y = PExc e).
+Proof.
+  intros H. pose proof (raw_score_shape m x y H) as S.
+  destruct (matcher_raw_cases m x y) as [E|(Ej & _ & _ & _ & _ & E)]; [rewrite E; exact S|].
+  rewrite E. destruct (String.eqb m "OVERLAP") eqn:Eo.
+  - apply String.eqb_eq in Eo. subst m. discriminate Ej.
+  - left. eexists. reflexivity.
+Qed.
+
+Lemma typed_seq_matcher m s x y : set_measure m = true ->
+  typed_score (String.eqb m "OVERLAP") s = true -> score_same s (matcher_raw_score m x y) = true ->
+  seq s (matcher_raw_score m x y) = true.
+Proof.
+  intros H Ht Hs. apply score_same_seq; [exact Hs|].
+  pose proof (matcher_raw_shape m x y H) as S. destruct (String.eqb m "OVERLAP").
+  - rewrite S in *. destruct s; simpl in *; try discriminate; reflexivity.
+  - destruct S as [[f E]|[e E]]; rewrite E in *; destruct s; simpl in *; try discriminate; reflexivity.
+Qed.
+
+(* not gray for the matcher: the matcher's comparison is the join's reported comparison *)
+Lemma pair_gray_pipe_false_cmp c m l r : j_entry c = EJoin m ->
+  present l && present r = true -> both_empty l r = false -> pair_gray_pipe c l r = false ->
+  cmp_op (j_op c) (matcher_raw_score m (toks_of l) (toks_of r)) (j_t c) =
+  cmp_op (j_op c) (reported_score m (toks_of l) (toks_of r)) (j_t c).
+Proof.
+  intros Ee Ep Eb. unfold pair_gray_pipe. rewrite Ee.
+  destruct (is_jcd m) eqn:Ej.
+  - rewrite <- !andb_assoc. apply andb_true_iff in Ep. destruct Ep as [-> ->]. rewrite Eb. simpl.
+    unfold gray_pipe. rewrite negb_false_iff. intros H. apply eqb_prop in H. exact H.
+  - intros _. rewrite (reported_not_jcd m _ _ Ej), (matcher_raw_not_jcd m _ _ Ej). reflexivity.
+Qed.
+
+Lemma pipe_excluded_found c o l r :
+  find_row (fst (fst o)) (j_L c) = Some l -> find_row (snd (fst o)) (j_R c) = Some r ->
+  pipe_excluded c o = pair_gray_pipe c l r.
+Proof. intros Hl Hr. unfold pipe_excluded, row_pair. rewrite Hl, Hr. reflexivity. Qed.
+
 (* ------------------------------------------------------------------ the pipeline list is determined *)
 Section Pipe.
 Variables (c : jcase) (m : string) (obsJ obsP : list out_row).
@@ -99,7 +200,18 @@ Hypothesis HPc : pipeline_complete_raw c obsP = true.
 Hypothesis HPm : missing_spec c obsP = true.
 Hypothesis HPt : typed_scores c obsP = true.
 
-Let G := fun l r : row => negb (exclg [c] l r).
+(* the region compared by pipeline_spec *)
+Definition pipe_region (l r : row) : bool := negb (exclg [c] l r) && negb (pair_gray_pipe c l r).
+Let G := pipe_region.
+
+Lemma pipe_region_inv l r : G l r = true ->
+  present l && present r && both_empty l r = false /\ pair_gray c l r = false /\
+  pair_gray_pipe c l r = false.
+Proof.
+  intros Hg. apply andb_true_iff in Hg. destruct Hg as [Hg Hp].
+  apply negb_true_iff in Hg. apply (exclg_in c) in Hg; [|left; reflexivity].
+  apply excl1_false in Hg. apply negb_true_iff in Hp. tauto.
+Qed.
 
 Lemma pipe_view o : In o obsP ->
   exists l r, find_row (fst (fst o)) (j_L c) = Some l /\ find_row (snd (fst o)) (j_R c) = Some r /\
@@ -117,77 +229,108 @@ Proof.
   unfold raw_in, raw_sc, trel. destruct (present l && present r) eqn:Ep.
   - destruct (both_empty l r) eqn:Eb; [discriminate|]. intros _. rewrite Ee in *.
     apply andb_true_iff in H. destruct H as [H1 H2]. split; [exact H1|].
-    rewrite H2, andb_true_r. apply typed_seq_raw; assumption.
+    rewrite H2, andb_true_r. apply typed_seq_matcher; assumption.
   - intros _. apply andb_true_iff in H. destruct H as [H1 H2]. split; [exact H1|].
     rewrite H2, andb_true_r. destruct (snd o); try discriminate H2. reflexivity.
 Qed.
 
-Lemma pipe_determined :
-  determined (j_L c) (j_R c) trel G (raw_in c) (raw_sc c) (keep_rows [c] obsP).
+Lemma keep_pipe_In o l r : find_row (fst (fst o)) (j_L c) = Some l -> find_row (snd (fst o)) (j_R c) = Some r ->
+  forall obs, In o (keep_pipe c obs) <-> In o obs /\ G l r = true.
 Proof.
   assert (forall c', In c' [c] -> same_tables c c') as Hst.
   { intros c' [<-|[]]. split; reflexivity. }
-  assert (forall l r, G l r = true ->
-            present l && present r && both_empty l r = false /\ pair_gray c l r = false) as HG.
-  { intros l r Hg. apply negb_true_iff in Hg. apply (exclg_in c) in Hg; [|left; reflexivity].
-    apply excl1_false; exact Hg. }
+  intros Hl Hr obs. unfold keep_pipe, keep_rows. rewrite !filter_In.
+  rewrite (row_excluded_found c [c] o l r Hst Hl Hr), (pipe_excluded_found c o l r Hl Hr).
+  unfold G, pipe_region. rewrite andb_true_iff. tauto.
+Qed.
+
+Lemma pipe_determined :
+  determined (j_L c) (j_R c) trel G (raw_in c) (raw_sc c) (keep_pipe c obsP).
+Proof.
   split; [|split].
-  - unfold keep_rows. apply uniq_filter. apply count_uniq. intros o Ho.
+  - unfold keep_pipe, keep_rows. apply uniq_filter, uniq_filter. apply count_uniq. intros o Ho.
     destruct (pipe_view o Ho) as [l [r [_ [_ [Hc _]]]]]. exact Hc.
-  - intros o Ho. unfold keep_rows in Ho. apply filter_In in Ho. destruct Ho as [Ho Hk].
-    destruct (pipe_view o Ho) as [l [r [Hl [Hr [_ H]]]]]. exists l, r.
-    rewrite (row_excluded_found c [c] o l r Hst Hl Hr) in Hk. fold (G l r) in Hk.
-    destruct (HG l r Hk) as [Hbe _]. destruct (H Hbe) as [H1 H2]. auto 6.
-  - intros l r [Hl Hr] Hg Hin. destruct (HG l r Hg) as [Hbe Hgr].
+  - intros o Ho.
+    assert (In o obsP) as Ho'.
+    { unfold keep_pipe, keep_rows in Ho. apply filter_In in Ho. destruct Ho as [Ho _].
+      apply filter_In in Ho. tauto. }
+    destruct (pipe_view o Ho') as [l [r [Hl [Hr [_ H]]]]]. exists l, r.
+    apply (keep_pipe_In o l r Hl Hr) in Ho. destruct Ho as [_ Hk].
+    destruct (pipe_region_inv l r Hk) as [Hbe _]. destruct (H Hbe) as [H1 H2]. auto 6.
+  - intros l r [Hl Hr] Hg Hin. destruct (pipe_region_inv l r Hg) as [Hbe [Hgr Hgp]].
     destruct (find_row_some _ _ _ Hl) as [Il _]. destruct (find_row_some _ _ _ Hr) as [Ir _].
     assert (has_pair (fst l) (fst r) obsP = true) as Hp.
     { unfold raw_in in Hin. destruct (present l && present r) eqn:Ep.
       - destruct (both_empty l r) eqn:Eb; [discriminate Hbe|]. rewrite Ee in Hin.
         pose proof (forall_pairs_inv _ _ _ _ HPc Il Ir) as H. cbv beta in H. rewrite Ep, Eb, Ee in H.
-        unfold qualifies in H.
-        rewrite <- (pair_gray_false_cmp c m l r Ee Ep Eb Hgr), Hin in H. exact H.
+        unfold qualifies in H. rewrite Hin in H.
+        rewrite (pair_gray_false_cmp c m l r Ee Ep Eb Hgr) in H.
+        rewrite <- (pair_gray_pipe_false_cmp c m l r Ee Ep Eb Hgp), Hin in H. exact H.
       - apply (missing_view c obsP l r); assumption. }
     apply has_pair_In in Hp. destruct Hp as [s Ho]. apply has_pair_In. exists s.
-    unfold keep_rows. apply filter_In. split; [exact Ho|].
-    rewrite (row_excluded_found c [c] (fst l, fst r, s) l r Hst Hl Hr). exact Hg.
+    apply (keep_pipe_In (fst l, fst r, s) l r Hl Hr). split; [exact Ho | exact Hg].
 Qed.
 
 Hypothesis HJc : complete_spec c obsJ = true.
 Hypothesis HJs : sound_spec c obsJ = true.
 Hypothesis HJm : missing_spec c obsJ = true.
 Hypothesis HJt : typed_scores c obsJ = true.
-Hypothesis Hround : round_agrees c m.
 
-Theorem pipeline_law : pipeline_spec c obsJ obsP = true.
+(* the join's rows in the same region *)
+Lemma join_determined :
+  determined (j_L c) (j_R c) trel G (exp_in c) (exp_score c) (keep_pipe c obsJ).
 Proof.
   assert (forall c', In c' [c] -> same_tables c c') as Hst.
   { intros c' [<-|[]]. split; reflexivity. }
   pose proof (keep_determined_typed c [c] obsJ pipe_set_case Hws HJc HJs HJm HJt (or_introl eq_refl) Hst) as DJ.
+  unfold keep_pipe.
+  apply (determined_filter _ _ _ _ (fun l r => negb (pair_gray_pipe c l r)) _ _ _
+           (fun o => negb (pipe_excluded c o)) DJ).
+  intros o l r _ Hl Hr. rewrite (pipe_excluded_found c o l r Hl Hr). reflexivity.
+Qed.
+
+Hypothesis Hround : round_agrees_rows c m.
+
+Theorem pipeline_law_rows : pipeline_spec c obsJ obsP = true.
+Proof.
   assert (forall s v, trel s v = true -> seq (round_score s) (round_score v) = true) as Hr.
   { intros s v H. apply seq_round. apply trel_seq; exact H. }
-  pose proof (determined_round _ _ _ _ _ _ _ _ DJ Hr) as DJr.
+  pose proof (determined_round _ _ _ _ _ _ _ _ join_determined Hr) as DJr.
   pose proof (determined_round _ _ _ _ _ _ _ _ pipe_determined Hr) as DPr.
   unfold pipeline_spec.
   eapply (determined_eq _ _ _ _ _ _ _ _ _ _ _ DJr DPr).
-  - intros l r _ Hg. apply negb_true_iff in Hg. apply (exclg_in c) in Hg; [|left; reflexivity].
-    apply excl1_false in Hg. destruct Hg as [Hbe Hgr].
+  - intros l r _ Hg. destruct (pipe_region_inv l r Hg) as [Hbe [_ Hgp]].
     unfold exp_in, raw_in. destruct (present l && present r) eqn:Ep; [|reflexivity].
     destruct (both_empty l r) eqn:Eb; [discriminate Hbe|].
-    unfold exp_cmp. rewrite Ee. symmetry. apply (pair_gray_false_cmp c m l r Ee Ep Eb Hgr).
-  - intros l r s s' _ Hg Hin H1 H2. cbv beta in H1, H2.
+    unfold exp_cmp. rewrite Ee. symmetry. apply (pair_gray_pipe_false_cmp c m l r Ee Ep Eb Hgp).
+  - intros l r s s' [Hfl Hfr] Hg Hin H1 H2. cbv beta in H1, H2.
     rewrite (seq_score_same _ _ _ _ H1 H2).
-    apply negb_true_iff in Hg. apply (exclg_in c) in Hg; [|left; reflexivity].
-    apply excl1_false in Hg. destruct Hg as [Hbe _].
+    destruct (pipe_region_inv l r Hg) as [Hbe _].
+    destruct (find_row_some _ _ _ Hfl) as [Il _]. destruct (find_row_some _ _ _ Hfr) as [Ir _].
     unfold exp_in in Hin. unfold exp_score, raw_sc. destruct (present l && present r) eqn:Ep; [|reflexivity].
     destruct (both_empty l r) eqn:Eb; [discriminate Hbe|].
-    unfold exp_cmp in Hin. unfold exp_sc. rewrite Ee in *. apply Hround; exact Hin.
+    apply andb_true_iff in Ep. destruct Ep as [Pl Pr].
+    unfold exp_cmp in Hin. unfold exp_sc. rewrite Ee in *. apply Hround; assumption.
 Qed.
 End Pipe.
+
+Theorem pipeline_law c m obsJ obsP :
+  j_entry c = EJoin m -> set_measure m = true -> j_with_score c = true ->
+  pipeline_sound_raw c obsP = true -> pipeline_complete_raw c obsP = true ->
+  missing_spec c obsP = true -> typed_scores c obsP = true ->
+  complete_spec c obsJ = true -> sound_spec c obsJ = true -> missing_spec c obsJ = true ->
+  typed_scores c obsJ = true ->
+  round_agrees c m -> pipeline_spec c obsJ obsP = true.
+Proof.
+  intros Ee Hmm Hws HPs HPc HPm HPt HJc HJs HJm HJt Hround.
+  exact (pipeline_law_rows c m obsJ obsP Ee Hmm Hws HPs HPc HPm HPt HJc HJs HJm HJt
+           (round_agrees_to_rows c m Hround)).
+Qed.
 
 (* round_agrees is trivial for integer scores *)
 Lemma round_agrees_overlap c : round_agrees c "OVERLAP".
 Proof.
-  intros x y _. unfold reported_score, raw_score. cbn [is_jcd String.eqb Ascii.eqb Bool.eqb orb].
+  intros x y _. rewrite (matcher_raw_not_jcd "OVERLAP" x y eq_refl). unfold reported_score, raw_score. cbn [is_jcd String.eqb Ascii.eqb Bool.eqb orb].
   simpl. rewrite Z.compare_refl. reflexivity.
 Qed.
 
@@ -197,7 +340,8 @@ Lemma round_agrees_not_jcd c m : is_jcd m = false ->
   (forall x y, cmp_op (j_op c) (raw_score m x y) (j_t c) = true ->
                score_same (round_score (raw_score m x y)) (round_score (raw_score m x y)) = true) ->
   round_agrees c m.
-Proof. intros Hj H x y. rewrite (reported_not_jcd m x y Hj). apply H. Qed.
+Proof. intros Hj H x y. rewrite (reported_not_jcd m x y Hj), (matcher_raw_not_jcd m x y Hj). apply H. Qed.
 
 Print Assumptions pipe_determined.
+Print Assumptions pipeline_law_rows.
 Print Assumptions pipeline_law.
